@@ -234,40 +234,10 @@ def r18_4(ctx):
                       "one zero column and wraps the SDE")
     pr = model.func(SDEINT, "parse_return")
     rep.analysed(pr)
-    L = [nf.sym(f"L{i}") for i in range(4)]
-    YS_STATE = nf.sym("YS_STATE")
-    split_calls = []
-
-    class H(LogqpHooks):
-        def tensor_method(self, interp, recv, name, args, kwargs, node, fi):
-            if name == "split":
-                split_calls.append((args, dict(kwargs)))
-                return (YS_STATE, list(L))
-            return LogqpHooks.tensor_method(self, interp, recv, name, args, kwargs, node, fi)
+    # the differencing itself (split sizes, increments L[i+1] - L[i], output shape) is decided entry by entry on
+    # index-level tensors by R18.6, whatever form the code gives it (a Python loop, one vectorised difference);
+    # here: without logqp the solution passes through unchanged
     y0, ys, ex = nf.sym("y0"), nf.sym("ys"), nf.sym("EXTRA")
-    for extra in (False, True):
-        it = Interp(model, H())
-        out = it.call_function(pr, [y0, ys, ex, extra, True], {})
-        want_len = 3 if extra else 2
-        ok = isinstance(out, tuple) and len(out) == want_len and nf.equal(out[0], YS_STATE) and isinstance(out[1], Cat) \
-            and out[1].kind == "stack" and out[1].dim == 0 and len(out[1].parts) == 3 \
-            and all(nf.equal(p, L[i + 1] - L[i]) for i, p in enumerate(out[1].parts)) and (not extra or nf.equal(out[2], ex))
-        rep.check(ok, "R18.4", astq.loc(pr), f"{pr.key}::R18.4::increments::extra={extra}",
-                  f"parse_return(logqp=True, extra={extra}) returns `{out}`; expected (state block, stack([L1-L0, L2-L1, "
-                  f"L3-L2], dim=0){', extra' if extra else ''})", "increments L[i+1] - L[i] over consecutive outputs")
-    if split_calls:
-        a, kw = split_calls[0]
-        sizes = kw.get("split_size", a[0] if a else None)
-        dim = kw.get("dim", a[1] if len(a) > 1 else None)
-        d = nf.fn("size", y0, 1)
-        ok = isinstance(sizes, tuple) and len(sizes) == 2 and nf.equal(sizes[0], d - 1) and nf.equal(sizes[1], 1) \
-            and dim == 2
-        rep.check(ok, "R18.4", astq.loc(pr), f"{pr.key}::R18.4::split",
-                  f"the solution is split with sizes `{sizes}` on dim {dim}; expected (y0.size(1) - 1, 1) on dim 2",
-                  "split (d-1, 1) on the last axis")
-    else:
-        rep.fail("R18.4", astq.loc(pr), f"{pr.key}::R18.4::split", "parse_return no longer splits the solution")
-    # without logqp: passthrough
     it = Interp(model, LogqpHooks())
     out = it.call_function(pr, [y0, ys, ex, False, False], {})
     out2 = it.call_function(pr, [y0, ys, ex, True, False], {})
@@ -298,10 +268,50 @@ def r18_4(ctx):
     rep.check(ok, "R18.4", astq.loc(cc, arm), f"{cc.key}::R18.4::augment",
               f"with logqp the state becomes `{v}` and the SDE `{env['sde']}`; expected cat((y0, zeros(batch, 1)), dim=1) "
               f"and SDELogqp(sde)", "one zero column appended; SDE wrapped")
-    ctx.floor("R18.4", 5)
+    ctx.floor("R18.4", 2)
+
+
+def r18_6(ctx):
+    """parse_return on small index-level tensors (one symbol per entry): for batch sizes 1 and 2 the log-ratio output has
+    shape (len(ts) - 1, batch) with entries L[i+1, b] - L[i, b], and the state block is ys[..., :d] entry by entry.  (A
+    squeeze without an axis collapses the batch axis when the batch has one row.)"""
+    from . import c17
+    rep, model = ctx.rep, ctx.model
+    rep.rule("R18.6", "parse_return at index level: log-ratio of shape (len(ts) - 1, batch), entries L[i+1, b] - L[i, b], for "
+                      "batch sizes 1 and 2; state block unchanged")
+    pr = model.func(SDEINT, "parse_return")
+    rep.analysed(pr)
+    T, d = 3, 2
+    for B in (1, 2):
+        it = c17._index_interp(model)
+        ys = c17.ST.symbolic("ys", (T, B, d + 1))
+        y0 = c17.ST.symbolic("y0", (B, d + 1))
+        try:
+            out = it.call_function(pr, [y0, ys, (), False, True], {})
+        except SimRaise as e:
+            rep.fail("R18.6", astq.loc(pr), f"{pr.key}::R18.6::batch={B}", f"parse_return raises {e.exc_name} for batch size {B}")
+            continue
+        ok = isinstance(out, tuple) and len(out) == 2 and all(isinstance(o, c17.ST) for o in out)
+        why = f"returns `{out!r}`"
+        if ok:
+            state, lr = out
+            ok = state.shape == (T, B, d) and all(nf.equal(state.data[ix], ys.data[ix]) for ix in state.data)
+            why = f"state block has shape {state.shape}"
+            if ok:
+                ok = lr.shape == (T - 1, B)
+                why = f"the log-ratio has shape {lr.shape}, not {(T - 1, B)}"
+                if ok:
+                    ok = all(nf.equal(lr.data[(i, b)], ys.data[(i + 1, b, d)] - ys.data[(i, b, d)])
+                             for i in range(T - 1) for b in range(B))
+                    why = "its entries are not L[i+1, b] - L[i, b]"
+        rep.check(ok, "R18.6", astq.loc(pr), f"{pr.key}::R18.6::batch={B}",
+                  f"parse_return(logqp=True) on ys of shape {(T, B, d + 1)}: {why}",
+                  f"log-ratio (len(ts) - 1, {B}), increments of the last channel")
+    ctx.floor("R18.6", 2)
 
 
 def run(ctx):
     ctx.guard(r18_1)
     ctx.guard(r18_g)
     ctx.guard(r18_4)
+    ctx.guard(r18_6)
